@@ -313,7 +313,19 @@ pub fn judge_sw(prog: &Prog, family: &str, budgets: &[usize], switches: &[(bool,
         for b in budgets {
             let opts = Opts { iters: *b, opt_static: os, opt_matcher: om, defines: vec![] };
             l.eval();
+            let _ = run::take_pass_trace();
             let obs = run::assemble_str(&src, &opts);
+            // hook H2: the real pass-state graph of this run (coverage only; no verdict reads it)
+            let trace = run::take_pass_trace();
+            let mut prev: Option<u64> = None;
+            for (_, _, _, _, digest) in &trace {
+                l.state(&(&src, digest));
+                if let Some(p) = prev {
+                    l.count(if p == *digest { "pass_transitions_to_same_state" } else { "pass_transitions_to_new_state" }, 1);
+                }
+                prev = Some(*digest);
+            }
+            l.transitions += trace.len() as u64;
             let mut bad: Option<(String, String)> = None;
             if let Some(p) = &obs.panicked {
                 bad = Some(("C02:panic".into(), format!("panic: {}", p)));
@@ -326,14 +338,11 @@ pub fn judge_sw(prog: &Prog, family: &str, budgets: &[usize], switches: &[(bool,
                 if it == *b {
                     l.class("converged-exactly-at-budget");
                 }
-                l.state(&(&src, it, &obs.bits));
-                l.transitions += it as u64;
                 if let Some(why) = certificate(prog, &obs, l) {
                     bad = Some(("C02:stale-or-inconsistent-success".into(), why));
                 }
             } else if obs.failure() {
                 l.class("not-converged-or-rejected");
-                l.transitions += *b as u64;
             } else {
                 bad = Some(("C02:unclean-outcome".into(), "neither clean success nor clean failure".into()));
             }
@@ -405,7 +414,7 @@ pub fn quick_budgets() -> Vec<usize> {
 pub fn run(ctx: &Ctx) -> Report {
     let mut rep = Report::new(
         "model_checking",
-        "twelve rule families with value-dependent encodings (assert cascades with 2 and 3 sizes, typed-width cascade, pc-relative, far-is-short with no/oscillating fixed points, tie next to a cascade) x all item sequences up to a length over 15 items x iteration budgets x the 4 optimisation-switch combinations, plus the skeleton grid (forward chains of length 0..12, with and without an oscillator) x budgets 1..30 x 4; every claimed success is re-derived from its own final symbol values and instruction sizes (certificate). Non-trivial = program that needed >= 2 passes under some configuration; distinct by program text. states = distinct (program, passes, bits) final states certified, transitions = passes executed.",
+        "twelve rule families with value-dependent encodings (assert cascades with 2 and 3 sizes, typed-width cascade, pc-relative, far-is-short with no/oscillating fixed points, tie next to a cascade) x all item sequences up to a length over 15 items x iteration budgets x the 4 optimisation-switch combinations, plus the skeleton grid (forward chains of length 0..12, with and without an oscillator) x budgets 1..30 x 4; every claimed success is re-derived from its own final symbol values and instruction sizes (certificate). Non-trivial = program that needed >= 2 passes under some configuration; distinct by program text. states = distinct (program, per-pass state digest) pairs read through hook H2, transitions = resolver passes executed.",
     );
     let fams = families();
     // sequence families: budgets around the pass counts that occur (1..6), the default and its neighbour, and a large
@@ -436,7 +445,7 @@ pub fn run(ctx: &Ctx) -> Report {
     levels.push(json!({"family": "late-settling boolean constant (directed): 2 orders x 7 thresholds x 3 x 3 pads x budgets 1..30 x 4 switches", "programs": lb.len()}));
     rep.extra("levels", json!(levels));
     rep.extra("budgets", json!(budgets));
-    rep.assumptions = vec!["the certificate uses the reference matcher/evaluator (refasm) with the sizes and symbol values the assembler itself reports; it never predicts which fixed point is found".into(), "pass snapshots (hook H2 of DESIGN §1.1) were not needed: states are final states".into()];
+    rep.assumptions = vec!["the certificate uses the reference matcher/evaluator (refasm) with the sizes and symbol values the assembler itself reports; it never predicts which fixed point is found".into(), "hook H2 (per-pass state digests) is coverage instrumentation only: the certificate reads the public final result".into()];
     for c in ["converged-in-1", "converged-in-2", "converged-in-3", "converged-in-4", "converged-in-6", "converged-exactly-at-budget", "not-converged-or-rejected"] {
         rep.require_class(c);
     }
